@@ -343,25 +343,25 @@
         };
     }
 
-    // @harness ids=C11,C01 tier=thorough fsa=2048 stubs=1 kind=bounded bound="3 points at indices 3,4,6; 1 selection covering all; everything fits: 1 fragment; values symbolic" units=outstation::database::details::range::static_db::StaticDatabase::write,outstation::database::details::range::static_db::StaticDatabase::write_range,outstation::database::details::range::static_db::StaticDatabase::write_typed_range,outstation::database::details::range::static_db::StaticDatabase::select,outstation::database::details::range::static_db::StaticDatabase::update timeout=900 note="series logic, object writer by contract: every selected point is handed to the writer exactly once, in ascending index order, from its SELECTED cell, in the requested variation; although every point is updated before the fragment the selected cells keep the request-time values and the updates land in `current`; queue empty when finished"
+    // @harness ids=C11,C10,C01 tier=thorough fsa=2048 stubs=1 kind=bounded bound="3 points at indices 3,4,6; 1 selection covering all; everything fits: 1 fragment; values symbolic" units=outstation::database::details::range::static_db::StaticDatabase::write,outstation::database::details::range::static_db::StaticDatabase::write_range,outstation::database::details::range::static_db::StaticDatabase::write_typed_range,outstation::database::details::range::static_db::StaticDatabase::select,outstation::database::details::range::static_db::StaticDatabase::update timeout=900 note="series logic, object writer by contract: every selected point is handed to the writer exactly once, in ascending index order, from its SELECTED cell, in the requested variation; although every point is updated before the fragment the selected cells keep the request-time values and the updates land in `current`; queue empty when finished"
     series_harness!(vk_c11_write_series_3pts_fit, 3, [3, 4, 6], 1, [(0, 65535)], 1, 0b0, (1, 3, true));
 
-    // @harness ids=C11,C01 tier=thorough fsa=2048 stubs=1 kind=bounded bound="3 points at indices 3,4,6; 1 selection; 'no room' at writer calls 2 and 4: 3 fragments of one point" units=outstation::database::details::range::static_db::StaticDatabase::write,outstation::database::details::range::static_db::StaticDatabase::write_typed_range,outstation::database::details::range::static_db::SelectionQueue::update_front timeout=900 note="a fragment ends at the first object that does not fit and the next fragment resumes at exactly that index: 3 | 4 | 6, nothing repeated or skipped, snapshot values despite updates before every fragment"
+    // @harness ids=C11,C10,C01 tier=thorough fsa=2048 stubs=1 kind=bounded bound="3 points at indices 3,4,6; 1 selection; 'no room' at writer calls 2 and 4: 3 fragments of one point" units=outstation::database::details::range::static_db::StaticDatabase::write,outstation::database::details::range::static_db::StaticDatabase::write_typed_range,outstation::database::details::range::static_db::SelectionQueue::update_front timeout=900 note="a fragment ends at the first object that does not fit and the next fragment resumes at exactly that index: 3 | 4 | 6, nothing repeated or skipped, snapshot values despite updates before every fragment"
     series_harness!(vk_c11_write_series_3pts_one_each, 3, [3, 4, 6], 1, [(3, 6)], 3, 0b1010, (3, 3, true));
 
-    // @harness ids=C11,C01 tier=thorough fsa=2048 stubs=1 kind=bounded bound="3 points at indices 3,4,6; 1 selection; 'no room' at writer call 3: fragments 3,4 | 6" units=outstation::database::details::range::static_db::StaticDatabase::write,outstation::database::details::range::static_db::StaticDatabase::write_typed_range timeout=900 note="resume after two objects"
+    // @harness ids=C11,C10,C01 tier=thorough fsa=2048 stubs=1 kind=bounded bound="3 points at indices 3,4,6; 1 selection; 'no room' at writer call 3: fragments 3,4 | 6" units=outstation::database::details::range::static_db::StaticDatabase::write,outstation::database::details::range::static_db::StaticDatabase::write_typed_range timeout=900 note="resume after two objects"
     series_harness!(vk_c11_write_series_3pts_two_one, 3, [3, 4, 6], 1, [(3, 6)], 2, 0b100, (2, 3, true));
 
-    // @harness ids=C11,C01 tier=thorough fsa=2048 stubs=1 kind=bounded bound="3 points at indices 3,4,6; 1 selection; 'no room' at the very first writer call: empty fragment, then everything" units=outstation::database::details::range::static_db::StaticDatabase::write,outstation::database::details::range::static_db::StaticDatabase::write_typed_range timeout=900 note="a fragment without room for a single object reports nothing and loses nothing"
+    // @harness ids=C11,C10,C01 tier=thorough fsa=2048 stubs=1 kind=bounded bound="3 points at indices 3,4,6; 1 selection; 'no room' at the very first writer call: empty fragment, then everything" units=outstation::database::details::range::static_db::StaticDatabase::write,outstation::database::details::range::static_db::StaticDatabase::write_typed_range timeout=900 note="a fragment without room for a single object reports nothing and loses nothing"
     series_harness!(vk_c11_write_series_3pts_none_then_all, 3, [3, 4, 6], 1, [(2, 7)], 2, 0b001, (2, 3, true));
 
-    // @harness ids=C11,C01 tier=thorough fsa=2048 stubs=1 kind=bounded bound="3 points at indices 3,4,6; 1 selection 4..=6; 'no room' at writer call 2; bound of 1 fragment: series unfinished" units=outstation::database::details::range::static_db::StaticDatabase::write,outstation::database::details::range::static_db::StaticDatabase::write_typed_range,outstation::database::details::range::static_db::SelectionQueue::update_front timeout=900 note="a range starting on an existing point reports only points inside (index 3 is not reported and keeps its older snapshot); after an incomplete fragment the rest stays queued and what was reported is a prefix of the snapshot"
+    // @harness ids=C11,C10,C01 tier=thorough fsa=2048 stubs=1 kind=bounded bound="3 points at indices 3,4,6; 1 selection 4..=6; 'no room' at writer call 2; bound of 1 fragment: series unfinished" units=outstation::database::details::range::static_db::StaticDatabase::write,outstation::database::details::range::static_db::StaticDatabase::write_typed_range,outstation::database::details::range::static_db::SelectionQueue::update_front timeout=900 note="a range starting on an existing point reports only points inside (index 3 is not reported and keeps its older snapshot); after an incomplete fragment the rest stays queued and what was reported is a prefix of the snapshot"
     series_harness!(vk_c11_write_series_partial_range, 3, [3, 4, 6], 1, [(4, 6)], 1, 0b10, (1, 1, false));
 
-    // @harness ids=C11,C01 tier=quick fsa=2048 stubs=1 kind=bounded bound="2 points at indices 3,4; 2 selections (4..=4 then 3..=4); 'no room' at writer call 2 (first object of the second header): 2 fragments" units=outstation::database::details::range::static_db::StaticDatabase::write,outstation::database::details::range::static_db::StaticDatabase::write_typed_range,outstation::database::details::range::static_db::StaticDatabase::select,outstation::database::details::range::static_db::SelectionQueue::push_back,outstation::database::details::range::static_db::SelectionQueue::pop timeout=900 note="two object headers in one request are answered in REQUEST order (index 4, then 3 and 4), each with its points once and ascending; a point named by both headers is reported under both; a finished header is dropped from the queue, the unfinished one resumes"
+    // @harness ids=C11,C10,C01 tier=quick fsa=2048 stubs=1 kind=bounded bound="2 points at indices 3,4; 2 selections (4..=4 then 3..=4); 'no room' at writer call 2 (first object of the second header): 2 fragments" units=outstation::database::details::range::static_db::StaticDatabase::write,outstation::database::details::range::static_db::StaticDatabase::write_typed_range,outstation::database::details::range::static_db::StaticDatabase::select,outstation::database::details::range::static_db::SelectionQueue::push_back,outstation::database::details::range::static_db::SelectionQueue::pop timeout=900 note="two object headers in one request are answered in REQUEST order (index 4, then 3 and 4), each with its points once and ascending; a point named by both headers is reported under both; a finished header is dropped from the queue, the unfinished one resumes"
     series_harness!(vk_c11_write_series_2sel_split, 2, [3, 4], 2, [(4, 4), (3, 4)], 2, 0b010, (2, 3, true));
 
-    // @harness ids=C11,C01 tier=thorough fsa=2048 stubs=1 kind=bounded bound="2 points at indices 3,4; 2 selections (3..=4 then 9..=9 without points); everything fits" units=outstation::database::details::range::static_db::StaticDatabase::write,outstation::database::details::range::static_db::StaticDatabase::write_typed_range timeout=900 note="a header that selects no existing point contributes nothing and does not block the series"
+    // @harness ids=C11,C10,C01 tier=thorough fsa=2048 stubs=1 kind=bounded bound="2 points at indices 3,4; 2 selections (3..=4 then 9..=9 without points); everything fits" units=outstation::database::details::range::static_db::StaticDatabase::write,outstation::database::details::range::static_db::StaticDatabase::write_typed_range timeout=900 note="a header that selects no existing point contributes nothing and does not block the series"
     series_harness!(vk_c11_write_series_2sel_empty_second, 2, [3, 4], 2, [(3, 4), (9, 9)], 1, 0b0, (1, 2, true));
 
     // ---- (2) end to end through the real writer
